@@ -19,7 +19,7 @@ CHUNK = 50
 PROBES = ['same_object_abandoned_in_logs', 'tag_straddles_buffer_boundary', 'large_capture', 'special_record', 'partial_tag_prefix_before_tag', 'earlier_dump_other_parser_object', 'multi_chunk', 'empty_chunk', 'cut_inside_window', 'cut_inside_lookup', 'decoy_tag_in_stackshot', 'gap_before_event_tag',
           'header_plist_unaligned', 'two_kext_blocks', 'two_dyld_blocks', 'two_code_blocks', 'two_log_blocks', 'unpadded_last_block',
           'log_extends_tables', 'log_without_pid', 'strings_block_before_logs', 'xml_plists', 'no_blocks', 'unknown_block',
-          'log_with_tai', 'cli_run', 'two_listings_of_one_object_under_way', 'two_listings_read_in_turns', 'log_blocks_share_stored_objects', 'log_argument_not_available', 'log_message_several_segments']
+          'log_with_tai', 'cli_run', 'same_record_on_both_sides_of_chunk_boundary', 'two_listings_of_one_object_under_way', 'two_listings_read_in_turns', 'log_blocks_share_stored_objects', 'log_argument_not_available', 'log_message_several_segments']
 RULE = ('one run = one simulated v3 dump (1..3 SimKernel threads, 0..60 records in 1..5 chunks, thread map with duplicate keys, '
         'seeded metadata/log blocks) parsed by the real KdBufParser and by PyKdebugParser.kevents/os_log_events; non-trivial = '
         '>= 2 event chunks or >= 2 blocks of one list-valued kind or >= 1 log that extends the tables; distinct = distinct '
@@ -73,6 +73,8 @@ def generate(rng, index, tier):
         w['chunks'].append(rng.pick(w['chunks']))                # an empty chunk
         w['chunks'].sort()
     scn['api'] = rng.pick(['kd', 'kd', 'pk'])
+    if w['chunks'] and rng.chance(0.15):
+        scn['same_record_across_boundary'] = rng.randint(1, 3)
     if rng.chance(0.25):
         # records a kernel buffer can hold besides decoded ones: all-zero slots, all-ones, zero timestamp and debugid
         scn['special'] = [[rng.randrange(0, nrec + 1), rng.pick(['zero', 'zero', 'ones', 'zts', 'magic', 'magic'])] for _ in range(rng.randint(1, 3))]
@@ -149,6 +151,14 @@ def execute(scn):
         rb.insert(min(pos, len(rb)), blob)
         bump('probe:special_record')
     w = scn['writer']
+    if scn.get('same_record_across_boundary'):
+        # the record that ends a chunk and the record that begins the next one are the same 64 bytes (a call retried under a
+        # clock that does not advance, a buffer flushed twice): two records, two events
+        cs_ = sorted(set(c for c in w.get('chunks', []) if 0 < c < len(rb)))
+        for c in cs_[:scn['same_record_across_boundary']]:
+            rb[c] = rb[c - 1]
+        if cs_:
+            bump('probe:same_record_on_both_sides_of_chunk_boundary')
     data, layout = worlds.build_file(w, rb)
     if scn.get('align'):
         # lengthen the stackshot filler so that a MORE_EVENTS tag starts `align` bytes before a multiple of 4096 / 8192
@@ -267,6 +277,7 @@ def execute(scn):
                     turns = list(so['turns'])
                     done_j = x is None
                     done_e = False
+                    early = False          # did the earlier listing end before the judged one reached its blocks?
                     while not done_j:
                         c = turns.pop(0) if turns else 0
                         if c and not done_e:
@@ -275,13 +286,17 @@ def execute(scn):
                                     done_e = True
                             except Exception:
                                 done_e = True
+                            if done_e:
+                                early = not any(common.is_log(y) for y in items)
                         else:
                             x = next(jit, None)
                             if x is None:
                                 done_j = True
                             else:
                                 items.append(x)
-                    attributes_judged = done_e        # (the earlier listing may still dispatch its blocks later)
+                    # the attributes describe whichever listing read its blocks last: they are judged only when that is known to
+                    # be the judged one (the earlier listing had ended before the judged one yielded its first log record)
+                    attributes_judged = done_e and early
                 else:
                     common.drain(scn_hold)
                     rest, exc = common.drain(jit)
